@@ -515,6 +515,7 @@ func renderFloatProgram(p *fprogram) gjs.Prog {
 	}
 	b.WriteString("\n")
 	var calls []string // the body of main, in shape order
+	tables := map[string]string{}
 	var chunk []string // pending statements of constant expressions
 	nchunk := 0
 	flush := func() {
@@ -549,18 +550,29 @@ func renderFloatProgram(p *fprogram) gjs.Prog {
 			fmt.Fprintf(&b, "func s%d(%s) %s { return %s }\n", i, strings.Join(sig, ", "), tn(s.rtype, nm), code)
 		}
 		var call []string
+		first := ""
 		for j, pt := range s.ptypes {
-			fmt.Fprintf(&b, "var a%d_%d = [...]%s{", i, j, tn(pt, nm))
+			var lit strings.Builder
+			fmt.Fprintf(&lit, "[...]%s{", tn(pt, nm))
 			for k, row := range s.args {
 				if k > 0 {
-					b.WriteString(", ")
+					lit.WriteString(", ")
 				}
-				b.WriteString(row[j].val.operand(pt, nm))
+				lit.WriteString(row[j].val.operand(pt, nm))
 			}
-			b.WriteString("}\n")
-			call = append(call, fmt.Sprintf("a%d_%d[i]", i, j))
+			lit.WriteString("}")
+			name, ok := tables[lit.String()] // an operand table is declared once per program
+			if !ok {
+				name = fmt.Sprintf("a%d_%d", i, j)
+				tables[lit.String()] = name
+				fmt.Fprintf(&b, "var %s = %s\n", name, lit.String())
+			}
+			if j == 0 {
+				first = name
+			}
+			call = append(call, name+"[i]")
 		}
-		fmt.Fprintf(&b, "func r%d() {\n\tfor i := range a%d_0 {\n\t\to_%s(s%d(%s))\n\t}\n}\n\n", i, i, s.rtype, i, strings.Join(call, ", "))
+		fmt.Fprintf(&b, "func r%d() {\n\tfor i := range %s {\n\t\to_%s(s%d(%s))\n\t}\n}\n\n", i, first, s.rtype, i, strings.Join(call, ", "))
 		calls = append(calls, fmt.Sprintf("r%d()", i))
 	}
 	flush()
@@ -905,6 +917,30 @@ func (fr *floatRun) decode(c *core.Ctx) bool {
 		c.Infra(fmt.Errorf("FloatArithScen emitted no scenario"))
 		return false
 	}
+	// canonical row order per shape (TLC's workers write the rows in any order): shapes over the
+	// same operand tuples then have identical operand tables, which a program declares once
+	for _, s := range fr.shapes {
+		keys := make([]string, len(s.rows))
+		for i, ps := range s.args {
+			var b strings.Builder
+			for _, p := range ps {
+				b.WriteString(p.val.describe())
+				b.WriteByte(';')
+			}
+			keys[i] = b.String()
+		}
+		idx := make([]int, len(s.rows))
+		for i := range idx {
+			idx[i] = i
+		}
+		sort.SliceStable(idx, func(a, b int) bool { return keys[idx[a]] < keys[idx[b]] })
+		rows := make([]*frec, len(idx))
+		args := make([][]*fexpr, len(idx))
+		for i, k := range idx {
+			rows[i], args[i] = s.rows[k], s.args[k]
+		}
+		s.rows, s.args = rows, args
+	}
 	return true
 }
 
@@ -950,7 +986,7 @@ func runFloatPrograms(c *core.Ctx, pool *gjs.Pool, fr *floatRun) {
 	cur := &fprogram{}
 	for _, sk := range fr.order {
 		s := fr.shapes[sk]
-		if cur.n > 0 && (cur.n+len(s.rows) > 2500 || len(cur.shapes) >= 600) {
+		if cur.n > 0 && (cur.n+len(s.rows) > 5000 || len(cur.shapes) >= 800) {
 			progs = append(progs, cur)
 			cur = &fprogram{}
 		}
